@@ -42,6 +42,7 @@ __CPROVER_assigns();
 void NetModel_addNet5(NetModel *ret, int cells_size, float minPin, float maxPin, float weight, int net)
 __CPROVER_requires(1)
 __CPROVER_ensures(net != g_n || (g_added && g_minPin == minPin && g_maxPin == maxPin && g_weight == weight && g_ncells == cells_size))
+__CPROVER_ensures(net == g_n || (g_added == __CPROVER_old(g_added) && g_minPin == __CPROVER_old(g_minPin) && g_maxPin == __CPROVER_old(g_maxPin) && g_weight == __CPROVER_old(g_weight)))
 __CPROVER_assigns(g_added, g_minPin, g_maxPin, g_weight, g_ncells);
 void NetModel_check(const NetModel *ret)
 __CPROVER_requires(1) __CPROVER_ensures(1) __CPROVER_assigns(verif_exc);
@@ -51,13 +52,13 @@ __CPROVER_requires(1) __CPROVER_ensures(1) __CPROVER_assigns(verif_exc);
 __CPROVER_requires(__CPROVER_is_fresh(circuit_p, sizeof(Circuit)) && verif_exc == 0 && 1 <= nc && nc <= NMAX && 1 <= nn && nn <= NMAX && 0 <= np && np <= NMAX) \
 __CPROVER_requires(CFRESH(circuit_p, cellWidth_, nc, int) && CFRESH(circuit_p, cellX_, nc, int) && CFRESH(circuit_p, cellY_, nc, int) && CFRESH(circuit_p, cellIsFixed_, nc, bool)) \
 __CPROVER_requires(CFRESH(circuit_p, netLimits_, nn + 1, int) && CFRESH(circuit_p, pinCells_, np, int) && CFRESH(circuit_p, netWeights_, nn, float) && __CPROVER_is_fresh(g_off, np * sizeof(int)) && __CPROVER_is_fresh(g_psize, nc * sizeof(int))) \
-__CPROVER_requires(circuit_p->netLimits_[0] == 0 && circuit_p->netLimits_[nn] == np && 0 <= g_n && g_n < nn && !g_added && !g_q_pushed && !g_any_fixed && 0 <= g_q) \
+__CPROVER_requires(circuit_p->netLimits_[0] == 0 && circuit_p->netLimits_[nn] == np && 0 <= g_n && g_n < nn && !g_added && !g_q_pushed && !g_any_fixed && 0 <= g_q && g_min_seen == g_min_seen && g_max_seen == g_max_seen && g_q_offset == g_q_offset && g_qoff_spec == g_qoff_spec) \
 __CPROVER_requires(MAGV(g_area.minX) && MAGV(g_area.maxX) && MAGV(g_area.minY) && MAGV(g_area.maxY) && g_area.minX <= g_area.maxX && g_area.minY <= g_area.maxY) \
 /* C17: the weight of every net reaches the continuous model unchanged */ \
 __CPROVER_ensures(!verif_exc ==> (g_added && g_weight == circuit_p->netWeights_[g_n])) \
 /* C06: fixed pins are represented by their extremes, clamped into the placement area */ \
 __CPROVER_ensures((!verif_exc && g_any_fixed) ==> (g_minPin == std_max(g_min_seen, (float)(AMIN)) && g_maxPin == std_min(g_max_seen, (float)(AMAX)) && g_minPin >= (float)(AMIN) && g_maxPin <= (float)(AMAX))) \
-__CPROVER_ensures((!verif_exc && !g_any_fixed) ==> isinf(g_minPin)) \
+__CPROVER_ensures((!verif_exc && !g_any_fixed) ==> (g_minPin == (float)INFINITY)) \
 /* a movable pin keeps its offset relative to the centre of its (placed) cell */ \
 __CPROVER_ensures((!verif_exc && g_q_pushed) ==> (g_q_offset == g_qoff_spec)) \
 __CPROVER_assigns(verif_exc, g_added, g_minPin, g_maxPin, g_weight, g_ncells, g_q_pushed, g_q_offset, g_q_cell, g_min_seen, g_max_seen, g_any_fixed, g_qoff_spec)
@@ -81,9 +82,10 @@ ordinal = 1
 contract = '''
 __CPROVER_assigns(i, verif_exc, g_added, g_minPin, g_maxPin, g_weight, g_ncells, g_q_pushed, g_q_offset, g_q_cell, g_min_seen, g_max_seen, g_any_fixed, g_qoff_spec)
 __CPROVER_loop_invariant(0 <= i && i <= nn && verif_exc == 0)
+__CPROVER_loop_invariant(g_min_seen == g_min_seen && g_max_seen == g_max_seen && g_q_offset == g_q_offset && g_qoff_spec == g_qoff_spec) /* ghost floats are not NaN, so that the snapshots compare equal */
 __CPROVER_loop_invariant(g_n < i ==> (g_added && g_weight == circuit_p->netWeights_[g_n]))
 __CPROVER_loop_invariant((g_n < i && g_any_fixed) ==> (g_minPin == std_max(g_min_seen, areaMin) && g_maxPin == std_min(g_max_seen, areaMax) && g_minPin >= areaMin && g_maxPin <= areaMax))
-__CPROVER_loop_invariant((g_n < i && !g_any_fixed) ==> isinf(g_minPin))
+__CPROVER_loop_invariant((g_n < i && !g_any_fixed) ==> (g_minPin == (float)INFINITY))
 __CPROVER_loop_invariant(g_n >= i ==> (!g_any_fixed && !g_q_pushed && !g_added))
 __CPROVER_loop_invariant(g_q_pushed ==> (g_n < i && g_q_offset == g_qoff_spec))
 __CPROVER_decreases(nn - i)
@@ -93,15 +95,16 @@ ordinal = 2
 contract = '''
 __CPROVER_assigns(j, minPos, maxPos, cells_size, offsets_size, g_q_pushed, g_q_offset, g_q_cell, g_min_seen, g_max_seen, g_any_fixed, g_qoff_spec)
 __CPROVER_loop_invariant(0 <= j && j <= g_hi - g_lo && 0 <= cells_size && cells_size <= j && offsets_size == cells_size)
+__CPROVER_loop_invariant(g_min_seen == g_min_seen && g_max_seen == g_max_seen && g_q_offset == g_q_offset && g_qoff_spec == g_qoff_spec)
 __CPROVER_loop_invariant((i == g_n && g_any_fixed) ==> (minPos == g_min_seen && maxPos == g_max_seen && minPos <= maxPos && minPos >= -16777216.0f && maxPos <= 16777216.0f))
-__CPROVER_loop_invariant((i == g_n && !g_any_fixed) ==> (isinf(minPos) && minPos > 0.0f && isinf(maxPos) && maxPos < 0.0f))
-__CPROVER_loop_invariant(i != g_n ==> (!g_any_fixed == !g_any_fixed0 && g_q_pushed == g_q_pushed0))
+__CPROVER_loop_invariant((i == g_n && !g_any_fixed) ==> (minPos == (float)INFINITY && maxPos == -(float)INFINITY))
+__CPROVER_loop_invariant(i != g_n ==> (g_any_fixed == g_any_fixed0 && g_q_pushed == g_q_pushed0 && g_min_seen == g_min_seen0 && g_max_seen == g_max_seen0 && g_q_offset == g_q_offset0 && g_qoff_spec == g_qoff_spec0))
 __CPROVER_loop_invariant(g_q_pushed ==> ((i == g_n || g_q_pushed0) && g_q_offset == g_qoff_spec))
 __CPROVER_decreases(g_hi - g_lo - j)
 '''
 [[ghosts]]
 at = 'body_start:1'
-text = '''GHOST(const int g_lo = circuit_p->netLimits_[i]; const int g_hi = circuit_p->netLimits_[i + 1]; const bool g_any_fixed0 = g_any_fixed; const bool g_q_pushed0 = g_q_pushed;) __CPROVER_assume(0 <= g_lo && g_lo <= g_hi && g_hi <= np); /* INSTANTIATE P(net) */'''
+text = '''GHOST(const int g_lo = circuit_p->netLimits_[i]; const int g_hi = circuit_p->netLimits_[i + 1]; const bool g_any_fixed0 = g_any_fixed; const bool g_q_pushed0 = g_q_pushed; const float g_min_seen0 = g_min_seen; const float g_max_seen0 = g_max_seen; const float g_q_offset0 = g_q_offset; const float g_qoff_spec0 = g_qoff_spec;) __CPROVER_assume(0 <= g_lo && g_lo <= g_hi && g_hi <= np); /* INSTANTIATE P(net) */'''
 [[ghosts]]
 after = 'int cell = Circuit_pinCell\(circuit_p, i, j\);'
 text = '''__CPROVER_assume(0 <= cell && cell < nc); GHOST(const int g_cx = circuit_p->cellX_[cell]; const int g_cy = circuit_p->cellY_[cell]; const int g_o = g_off[g_lo + j]; const int g_ps = g_psize[cell];) __CPROVER_assume(MAGV(g_cx) && MAGV(g_cy) && g_o >= -8388608 && g_o <= 8388608 && MAGSZ(g_ps)); /* INSTANTIATE P(pin), MAG */'''
@@ -133,9 +136,10 @@ ordinal = 1
 contract = '''
 __CPROVER_assigns(i, verif_exc, g_added, g_minPin, g_maxPin, g_weight, g_ncells, g_q_pushed, g_q_offset, g_q_cell, g_min_seen, g_max_seen, g_any_fixed, g_qoff_spec)
 __CPROVER_loop_invariant(0 <= i && i <= nn && verif_exc == 0)
+__CPROVER_loop_invariant(g_min_seen == g_min_seen && g_max_seen == g_max_seen && g_q_offset == g_q_offset && g_qoff_spec == g_qoff_spec) /* ghost floats are not NaN, so that the snapshots compare equal */
 __CPROVER_loop_invariant(g_n < i ==> (g_added && g_weight == circuit_p->netWeights_[g_n]))
 __CPROVER_loop_invariant((g_n < i && g_any_fixed) ==> (g_minPin == std_max(g_min_seen, areaMin) && g_maxPin == std_min(g_max_seen, areaMax) && g_minPin >= areaMin && g_maxPin <= areaMax))
-__CPROVER_loop_invariant((g_n < i && !g_any_fixed) ==> isinf(g_minPin))
+__CPROVER_loop_invariant((g_n < i && !g_any_fixed) ==> (g_minPin == (float)INFINITY))
 __CPROVER_loop_invariant(g_n >= i ==> (!g_any_fixed && !g_q_pushed && !g_added))
 __CPROVER_loop_invariant(g_q_pushed ==> (g_n < i && g_q_offset == g_qoff_spec))
 __CPROVER_decreases(nn - i)
@@ -145,15 +149,16 @@ ordinal = 2
 contract = '''
 __CPROVER_assigns(j, minPos, maxPos, cells_size, offsets_size, g_q_pushed, g_q_offset, g_q_cell, g_min_seen, g_max_seen, g_any_fixed, g_qoff_spec)
 __CPROVER_loop_invariant(0 <= j && j <= g_hi - g_lo && 0 <= cells_size && cells_size <= j && offsets_size == cells_size)
+__CPROVER_loop_invariant(g_min_seen == g_min_seen && g_max_seen == g_max_seen && g_q_offset == g_q_offset && g_qoff_spec == g_qoff_spec)
 __CPROVER_loop_invariant((i == g_n && g_any_fixed) ==> (minPos == g_min_seen && maxPos == g_max_seen && minPos <= maxPos && minPos >= -16777216.0f && maxPos <= 16777216.0f))
-__CPROVER_loop_invariant((i == g_n && !g_any_fixed) ==> (isinf(minPos) && minPos > 0.0f && isinf(maxPos) && maxPos < 0.0f))
-__CPROVER_loop_invariant(i != g_n ==> (!g_any_fixed == !g_any_fixed0 && g_q_pushed == g_q_pushed0))
+__CPROVER_loop_invariant((i == g_n && !g_any_fixed) ==> (minPos == (float)INFINITY && maxPos == -(float)INFINITY))
+__CPROVER_loop_invariant(i != g_n ==> (g_any_fixed == g_any_fixed0 && g_q_pushed == g_q_pushed0 && g_min_seen == g_min_seen0 && g_max_seen == g_max_seen0 && g_q_offset == g_q_offset0 && g_qoff_spec == g_qoff_spec0))
 __CPROVER_loop_invariant(g_q_pushed ==> ((i == g_n || g_q_pushed0) && g_q_offset == g_qoff_spec))
 __CPROVER_decreases(g_hi - g_lo - j)
 '''
 [[ghosts]]
 at = 'body_start:1'
-text = '''GHOST(const int g_lo = circuit_p->netLimits_[i]; const int g_hi = circuit_p->netLimits_[i + 1]; const bool g_any_fixed0 = g_any_fixed; const bool g_q_pushed0 = g_q_pushed;) __CPROVER_assume(0 <= g_lo && g_lo <= g_hi && g_hi <= np); /* INSTANTIATE P(net) */'''
+text = '''GHOST(const int g_lo = circuit_p->netLimits_[i]; const int g_hi = circuit_p->netLimits_[i + 1]; const bool g_any_fixed0 = g_any_fixed; const bool g_q_pushed0 = g_q_pushed; const float g_min_seen0 = g_min_seen; const float g_max_seen0 = g_max_seen; const float g_q_offset0 = g_q_offset; const float g_qoff_spec0 = g_qoff_spec;) __CPROVER_assume(0 <= g_lo && g_lo <= g_hi && g_hi <= np); /* INSTANTIATE P(net) */'''
 [[ghosts]]
 after = 'int cell = Circuit_pinCell\(circuit_p, i, j\);'
 text = '''__CPROVER_assume(0 <= cell && cell < nc); GHOST(const int g_cx = circuit_p->cellX_[cell]; const int g_cy = circuit_p->cellY_[cell]; const int g_o = g_off[g_lo + j]; const int g_ps = g_psize[cell];) __CPROVER_assume(MAGV(g_cx) && MAGV(g_cy) && g_o >= -8388608 && g_o <= 8388608 && MAGSZ(g_ps)); /* INSTANTIATE P(pin), MAG */'''
